@@ -11,17 +11,21 @@ SI = 'tracklib.core.spatial_index.SpatialIndex'
 NET = 'tracklib.core.network.Network'
 
 EXPLANATION = (
-    "Static analysis of SpatialIndex.__getCell / addFeature / __cellsCrossSegment / request / neighborhood / "
-    "__neighboringcells / groundDistanceToUnits and Network.addEdge: one coordinate->cell formula (x with dX, y with dY) "
-    "shared by registration and every query, integer cells by floor; the cells examined for a segment are the "
-    "inclusive cell bounding box of its two floored end points and each is tested for containment and against "
-    "exactly the four sides of its unit square; a neighbourhood of radius u is the full clipped (2u+1)^2 window with "
-    "columns clipped by the column count and rows by the row count; a ground distance is converted with the smaller "
-    "cell side (conservative); a fractional index that may equal the grid size is clamped before it addresses the "
-    "grid; consecutive vertex pairs are all visited; a network edge added after the index exists is registered under "
-    "its own position.")
-ASSUMPTIONS = ["query points and vertices inside the index extent", "the straddle test isSegmentIntersects is complete for touching/collinear cases (real geometry, not decided)"]
-TECHNIQUE = "sibling/formula agreement (F5/F8), affine range and side-set rules (F3), monotonicity polarity of the distance conversion (F2)"
+    "Static analysis of SpatialIndex and Network.addEdge / Network.bbox.  (Q) the bodies of __init__, addFeature, __getCell, "
+    "__cellsCrossSegment, request, neighborhood and __neighboringcells are interpreted by tlint.orders (an AST interpreter over "
+    "abstract objects; the repository code is never imported or executed) on a finite case domain: a non-square 3 x 2 grid of unit "
+    "cells each holding one marker, vertices on the integrality classes {k, k+1/2} including the closed upper border, segments "
+    "strictly inside a cell, tracks of three vertices, window radii 0..3, five data extents for the constructor; every query form "
+    "must return the data of every cell met / within the window (no false negatives), registration must reach every such cell and "
+    "the allocated grid must cover the extent.  (B/I) the cell bounding box of a segment is evaluated on the same classes: every "
+    "cell between the floored end points is examined and none outside the grid.  (M) one coordinate->cell formula, no private copy. "
+    "(U) units = round(d/E + B) + c is decomposed symbolically: the rounding never loses a started cell and E is at most the smaller "
+    "cell side on every order class of (dX, dY).  (I) __getCell admits the closed extent.  (K) the bookkeeping key tested is the key "
+    "recorded.  (T) an edge added after the index exists is registered under its own position; the extent of a network comes from the "
+    "edge geometries.")
+ASSUMPTIONS = ["query points and vertices inside the index extent", "the straddle test isSegmentIntersects is interpreted as written; its completeness for touching/collinear cases in real geometry is not decided",
+               "the case domain is exhaustive for the dependence on integrality class, border position and grid shape, and bounded (3 x 2 cells, 3 vertices, radius <= 3) otherwise"]
+TECHNIQUE = "abstract interpretation of the method bodies on a finite case domain (F3/F4), symbolic rounding/polarity decomposition (F2), path rules for the closed extent and the bookkeeping key (F6), provenance of the network extent (F8)"
 
 
 def vr(v):
@@ -54,12 +58,6 @@ def rule_M(ctx):
     ctx.check(isinstance(ix, Rat) and w.rel.is_zero(ix - ex) and isinstance(iy, Rat) and w.rel.is_zero(iy - ey), 'C08.M', f,
               'fractional cell = ((x - xmin)/dX, (y - ymin)/dY)', witness={'found': [vr(ix), vr(iy)], 'expected': [vr(ex), vr(ey)]},
               node=pairs[0].node, key='formula')
-    # cell sizes: dX = ax / csize, dY = ay / lsize ; grid allocated csize x lsize
-    init = ctx.prog.func(SI + '.__init__')
-    t = unparse(init.node)
-    ctx.recognise('self.dX = ax / self.csize' in t and 'self.dY = ay / self.lsize' in t and 'for i in range(self.csize)' in t and
-              'for j in range(self.lsize)' in t, 'C08.M', init, 'cell width/height are extent / column count, extent / row count; grid[column][row] is csize x lsize',
-              witness={}, node=init.node, key='sizes')
     # every consumer goes through __getCell and floors
     users = {}
     for q, fi in ctx.prog.functions.items():
@@ -69,14 +67,8 @@ def rule_M(ctx):
                    re.search(r'self\.d[XY]$', unparse(c.right) or '') and 'xmin' in unparse(c.left) + 'ymin']
             priv = [c for c in ast.walk(fi.node) if isinstance(c, ast.BinOp) and isinstance(c.op, ast.Div) and
                     unparse(c.right) in ('self.dX', 'self.dY') and ('self.xmin' in unparse(c.left) or 'self.ymin' in unparse(c.left))]
-            if n:
-                users[fi.name] = n
             ctx.check(not priv, 'C08.M', fi, 'no private copy of the coordinate->cell formula (registration and queries must agree)',
                       witness={'private formula': [unparse(c) for c in priv]}, node=fi.node, key='private:' + fi.name) if priv else None
-    need = {'addFeature': 2, 'request': 5, 'neighborhood': 3}
-    ok = all(users.get(k, 0) >= v for k, v in need.items())
-    ctx.check(ok, 'C08.M', f, 'registration (addFeature) and the point/segment/track forms of request and neighborhood all map coordinates through __getCell',
-              witness={'calls per method': users, 'expected at least': need}, node=f.node, key='users')
 
 
 def _floor_of(w, v, what):
@@ -151,112 +143,6 @@ def rule_B(ctx):
                   witness={'case': res['missing'], 'cases evaluated': res['cases'],
                            'why': 'a cell holding an end point (or lying between the end points) is not examined, so the segment is not registered there'},
                   node=lo if nm == 'columns' else li, key='bbox:' + nm)
-    iv, jv = lo.target.id, li.target.id
-    st = pre.fork()
-    st.events = []
-    st.conds = []
-    st.env[iv] = Rat.atom('I')
-    st.env[jv] = Rat.atom('J')
-    outs = list(w.run(li.body, st))
-    sides = set()
-    seg2 = None
-    n_append = 0
-    for o in outs:
-        calls = [e for e in o.state.events if e.kind == 'call' and e.name == 'isSegmentIntersects']
-        apps = [e for e in o.state.events if e.kind == 'call' and e.name == 'append']
-        for e in calls:
-            s1 = e.args[0]
-            if isinstance(s1, (list, tuple)) and len(s1) == 4:
-                a = (vr(s1[0]), vr(s1[1]))
-                b = (vr(s1[2]), vr(s1[3]))
-                sides.add(tuple(sorted([a, b])))
-            seg2 = e.args[1]
-        # a positive test appends the cell (I, J)
-        pos = [c for c, _ in o.state.conds if c.kind == 'truth' and 'isSegmentIntersects' in repr(c)]
-        if pos:
-            n_append += 1
-            ok = any(isinstance(e.args[0], tuple) and [vr(x) for x in e.args[0]] == ['I', 'J'] for e in apps) or \
-                any('in ' in repr(c) and '(I, J)' in repr(c).replace("'", '') for c, _ in o.state.conds)
-            ctx.check(ok, 'C08.B', f, 'a cell whose side is met by the segment is added to the result', witness={'path': [repr(c)[:80] for c, _ in o.state.conds][-3:]},
-                      node=li, key='append-side')
-    want = {tuple(sorted([('I', 'J'), ('1 + I', 'J')])), tuple(sorted([('I', 'J'), ('I', '1 + J')])),
-            tuple(sorted([('I', '1 + J'), ('1 + I', '1 + J')])), tuple(sorted([('1 + I', 'J'), ('1 + I', '1 + J')]))}
-    ctx.check(sides == want, 'C08.B', f, 'each cell is tested against exactly the four sides of its unit square',
-              witness={'sides tested': sorted(sides), 'missing': sorted(want - sides), 'unexpected': sorted(sides - want)}, node=li, key='four-sides')
-    exp2 = ['%s[0]' % c1, '%s[1]' % c1, '%s[0]' % c2, '%s[1]' % c2]
-    ctx.check(isinstance(seg2, (list, tuple)) and [vr(x) for x in seg2] == exp2, 'C08.B', f, 'the sides are tested against the segment (c1, c2), x then y',
-              witness={'segment': [vr(x) for x in seg2] if isinstance(seg2, (list, tuple)) else None}, node=li, key='segment')
-    inside = [o for o in outs if any(e.kind == 'call' and e.name == 'append' for e in o.state.events) and
-              not any(e.kind == 'call' and e.name == 'isSegmentIntersects' for e in o.state.events)]
-    ctx.check(bool(inside), 'C08.B', f, 'a cell that contains the whole segment is added too', witness={}, node=li, key='inside')
-    # the containment test must hold whenever both end points are strictly inside the cell (I, J): every conjunct has to follow from
-    # I < x < I+1 and J < y < J+1 (a segment strictly inside meets no side, so this arm is the only one that can register it)
-    box = {'%s[0]' % c1: 'I', '%s[0]' % c2: 'I', '%s[1]' % c1: 'J', '%s[1]' % c2: 'J'}
-    for o in inside[:1]:
-        for c, _ in o.state.conds:
-            for cj in c.conjuncts():
-                if cj.kind != 'cmp' or not (isinstance(cj.a, Rat) and isinstance(cj.b, Rat)) or cj.op not in ('<', '<='):
-                    if 'coord' in repr(cj) or c1 in repr(cj) or c2 in repr(cj):
-                        raise shape_error('__cellsCrossSegment: containment test not understood: %r' % cj, f.loc(li))
-                    continue
-                d = cj.b - cj.a            # cj says d > 0 (or >= 0)
-                cs = [a for a in d.atoms() if a in box]
-                if not cs:
-                    continue
-                if len(cs) != 1 or not d.ispoly():
-                    raise shape_error('__cellsCrossSegment: containment test not understood: %r' % cj, f.loc(li))
-                a = cs[0]
-                k = d.n.coeff(a)
-                if not (k.isconst() and abs(k.constval()) == 1):
-                    raise shape_error('__cellsCrossSegment: containment test not understood: %r' % cj, f.loc(li))
-                lowb = Rat.atom(box[a])
-                # coordinate strictly between lowb and lowb+1: substitute the worst case
-                worst = d.subst(a, lowb + Rat.const(1)) if k.constval() < 0 else d.subst(a, lowb)
-                good = worst.isconst() and worst.constval() >= 0
-                ctx.check(good, 'C08.B', f, 'the containment test accepts every segment lying strictly inside the cell (each bound is the bound of this cell, same axis)',
-                          witness={'conjunct': repr(cj), 'coordinate': a, 'must follow from': '%s < %s < %s + 1' % (box[a], a, box[a]),
-                                   'slack at the cell border': repr(worst),
-                                   'why': 'for a cell with I != J a segment strictly inside it fails this test, meets no side of the cell and is registered nowhere'},
-                          node=li, key='inside:' + a + (':up' if k.constval() < 0 else ':low'))
-    if n_append < 4:
-        raise shape_error('__cellsCrossSegment: fewer than four side tests lead to an append', f.loc(li))
-
-
-def rule_W(ctx):
-    """C08.W neighbourhood window"""
-    f = _m(ctx, '__neighboringcells')
-    i, j, u, inc = f.params[1:5]
-    body = body_nodocstring(f)
-    loops = [s for s in body if isinstance(s, ast.For)]
-    if len(loops) != 1:
-        raise shape_error('__neighboringcells: loops not found', f.loc())
-    lo = loops[0]
-    li = [x for x in lo.body if isinstance(x, ast.For)]
-    if len(li) != 1:
-        raise shape_error('__neighboringcells: inner loop not found', f.loc())
-    li = li[0]
-    w = Walker(f, loop_mode='skip')
-    pre = [o for o in w.run(body[:body.index(lo)], State()) if o.kind == 'fall'][0].state
-    for l, c, size, nm in ((lo, i, 'self.csize', 'columns'), (li, j, 'self.lsize', 'rows')):
-        r = w.range_info(l.iter, pre)
-        ce = Rat.atom(c)
-        ue = Rat.atom(u)
-        lo_ok = vr(r[0]) == 'max(%s)' % ', '.join(sorted(['0', repr(ce - ue)]))
-        hi_ok = vr(r[1]) == 'min(%s)' % ', '.join(sorted([size, repr(ce + ue + Rat.const(1))]))
-        ctx.check(lo_ok and hi_ok, 'C08.W', f,
-                  'the window spans %s c-u .. c+u inclusive, clipped to [0, %s)' % (nm, size),
-                  witness={'range': [vr(r[0]), vr(r[1])],
-                           'why': 'clipping rows with the column count (or vice versa) drops rows of a non-square grid'}, node=l, key='window:' + nm)
-    st = State({inc: Rat.const(0), lo.target.id: Rat.atom('II'), li.target.id: Rat.atom('JJ')})
-    outs = [o for o in w.run(li.body, st)]
-    ok = len(outs) == 1 and any(e.kind == 'call' and e.name == 'append' and isinstance(e.args[0], tuple) and [vr(x) for x in e.args[0]] == ['II', 'JJ']
-                                for e in outs[0].state.events)
-    ctx.check(ok, 'C08.W', f, 'in plain (non-incremental) mode every cell of the window is returned, as (column, row)', witness={}, node=li, key='all-cells')
-    # neighborhood(i,j,unit) unions the registered data of every cell of the window
-    g = ctx.prog.func(SI + '.neighborhood')
-    t = unparse(g.node)
-    ctx.recognise('NC = self.__neighboringcells(i, j, unit, False)' in t and 'TAB.update(self.request(cell[0], cell[1]))' in t, 'C08.W', g,
-              'neighborhood(i, j, unit) collects the data of every window cell', witness={}, node=g.node, key='collect')
 
 
 def rule_U(ctx):
@@ -358,39 +244,6 @@ def rule_I(ctx):
     if n_none == 0:
         raise shape_error('__getCell: out-of-extent returns not found', f.loc())
     ctx.ok('C08.I', f, '__getCell admits the whole closed extent', node=f.node)
-    sites = []
-    for name in ('request', 'neighborhood'):
-        g = ctx.prog.func(SI + '.' + name)
-        for c in ast.walk(g.node):
-            if isinstance(c, ast.Call) and isinstance(c.func, ast.Attribute) and c.func.attr in ('request', 'neighborhood') and \
-                    unparse(c.func.value) == 'self' and len(c.args) >= 2 and 'floor' in unparse(c.args[0]):
-                sites.append((g, c))
-    if len(sites) < 2:
-        raise shape_error('point forms of request/neighborhood not found')
-    import math
-    from .. import orders
-    funcs = {'floor': math.floor, 'ceil': math.ceil, 'round': round, 'trunc': math.trunc}
-    for g, c in sites:
-        # the two cell arguments depend on the fractional cell only through floor/min/max: evaluate them at the border classes
-        names = sorted({n.id for a in c.args[:2] for n in ast.walk(a) if isinstance(n, ast.Name) and n.id not in ('min', 'max', 'math', 'self', 'int')})
-        if len(names) != 1:
-            raise shape_error('%s: cell arguments of the point form not understood' % g.name, g.loc(c))
-        bad = None
-        for S1, S2 in ((2, 3), (3, 2)):
-            for fx in (0.0, 0.5, S1 - 0.5, float(S1)):
-                for fy in (0.0, 0.5, S2 - 0.5, float(S2)):
-                    env = {names[0]: (fx, fy), 'self.csize': S1, 'self.lsize': S2}
-                    try:
-                        i, j = orders.ev(c.args[0], env, funcs), orders.ev(c.args[1], env, funcs)
-                    except orders.Unsupported as ex:
-                        raise shape_error('%s: cell arguments of the point form not evaluable (%s)' % (g.name, ex), g.loc(c))
-                    want = (min(math.floor(fx), S1 - 1), min(math.floor(fy), S2 - 1))
-                    if bad is None and (i, j) != want:
-                        bad = {'fractional cell': [fx, fy], 'grid (columns, rows)': [S1, S2], 'cell addressed': [i, j], 'cell containing the point': list(want)}
-        ctx.check(bad is None, 'C08.I', g,
-                  'a point of the closed extent addresses the cell that contains it (upper border folded into the last column/row)',
-                  witness={'case': bad, 'why': 'x == xmax is admitted by __getCell and floors to index csize, which does not exist (IndexError); any other cell misses the features registered where the point is'},
-                  node=c, key='clamp:' + g.name)
     h = _m(ctx, '__cellsCrossSegment')
     hb = body_nodocstring(h)
     hl = [x for x in hb if isinstance(x, ast.For)]
@@ -406,23 +259,6 @@ def rule_I(ctx):
 
 def rule_T(ctx):
     """C08.T all consecutive vertex pairs are visited"""
-    for name in ('addFeature', 'request', 'neighborhood'):
-        g = ctx.prog.func(SI + '.' + name)
-        found = 0
-        for l in [n for n in ast.walk(g.node) if isinstance(n, ast.For)]:
-            t = unparse(l.iter)
-            if not re.match(r'^range\(\w+\.size\(\)\)$', t):
-                continue
-            # rolling pair: prev = cur as last statement, pair used under `prev != None`
-            last = l.body[-1]
-            if isinstance(last, ast.Assign) and isinstance(last.targets[0], ast.Name) and isinstance(last.value, ast.Name):
-                prev, cur = last.targets[0].id, last.value.id
-                guard = [s for s in l.body if isinstance(s, ast.If) and prev in unparse(s.test) and 'None' in unparse(s.test)]
-                found += 1
-                ctx.check(len(guard) == 1, 'C08.T', g, '%s: every pair of consecutive vertices (i-1, i) is processed, the previous vertex being rolled forward each turn' % name,
-                          witness={'loop': t}, node=l, key='pairs:' + name)
-        if found == 0:
-            raise shape_error('%s: vertex-pair loop not found' % name, g.loc())
     # incremental registration of network edges
     a = ctx.prog.func(NET + '.addEdge')
     w = Walker(a, loop_mode='skip')
@@ -438,10 +274,31 @@ def rule_T(ctx):
                   'an edge added after the index was built is registered under its own position (number of edges - 1, counted after insertion)',
                   witness={'registered under': vr(e.args[1]), 'why': 'queries then return a position that designates another edge (or none)'},
                   node=e.node, key='incremental')
-    init = ctx.prog.func(SI + '.__init__')
-    t = unparse(init.node)
-    ctx.recognise('self.addFeature(feature, num)' in t and 'self.addFeature(feature.geom, num)' in t and 'feature = collection[num]' in t, 'C08.T', init,
-              'at construction feature number n of the collection is registered under n', witness={}, node=init.node, key='initial')
+    # the extent of an index over a network is the extent of the edge GEOMETRIES (what is registered), not of the nodes
+    nb = ctx.prog.func(NET + '.bbox')
+    reads = set()
+    seen = set()
+
+    def scan(fi, depth=0):
+        if fi.qual in seen or depth > 3:
+            return
+        seen.add(fi.qual)
+        for n_ in ast.walk(fi.node):
+            if isinstance(n_, ast.Attribute):
+                reads.add(n_.attr)
+            if isinstance(n_, ast.Call) and isinstance(n_.func, ast.Attribute) and isinstance(n_.func.value, ast.Name) and n_.func.value.id == 'self':
+                cal = ctx.prog.maybe_func(NET + '.' + n_.func.attr)
+                if cal is not None:
+                    scan(cal, depth + 1)
+    scan(nb)
+    uses_geom = 'geom' in reads
+    uses_nodes_only = not uses_geom and bool(reads & {'NODES', 'coord', '_Network__idx_nodes', '__idx_nodes'})
+    if not uses_geom and not uses_nodes_only:
+        raise shape_error('Network.bbox: source of the extent not understood (reads %s)' % sorted(reads), nb.loc())
+    ctx.check(uses_geom, 'C08.T', nb, 'the extent of a network (which sizes the index grid) is computed from the edge geometries that are registered in the index',
+              witness={'attributes read by bbox() and the methods it calls': sorted(reads),
+                       'why': 'an edge bulging out of the hull of the nodes has vertices outside the grid: __getCell refuses them and addFeature skips those segments, '
+                              'so queries near them miss the edge'}, node=nb.node, key='network-extent')
 
 
 def rule_K(ctx):
@@ -616,6 +473,14 @@ def rule_Q(ctx):
                     want |= window(c_, u)
                 need('nb-seg', 'neighborhood([p1, p2], unit=u) returns the data of every cell within u cells of a crossed cell',
                      call(None, 'neighborhood', [c1, c2], None, u), want, {'segment': [repr(c1), repr(c2)], 'u': u}, 'neighborhood')
+        for c1, c2 in ((Coord(2.25, 0.25), Coord(2.75, 0.75)), (Coord(0.25, 1.25), Coord(0.75, 1.75)), (Coord(1.25, 0.5), Coord(1.75, 0.5))):
+            need('req-seg', 'request([p1, p2]) returns the data of every cell the segment passes through',
+                 call(None, 'request', [c1, c2]), [('cell',) + cell_of(c1)], {'segment (strictly inside one cell)': [repr(c1), repr(c2)]}, 'request')
+            ix = index(fill=False)
+            call(ix, 'addFeature', TrackS([c1, c2]), 5)
+            if 5 not in ix.fields['grid'][cell_of(c1)[0]][cell_of(c1)[1]] and not any(k == 'register' for k, _ in found):
+                found.append(('register', ('addFeature registers the feature number in every cell its segments pass through',
+                                           {'track (strictly inside one cell)': [repr(c1), repr(c2)], 'cells without the feature': [cell_of(c1)]}, 'addFeature')))
         for tri in ([Coord(0.5, 0.5), Coord(2.5, 0.5), Coord(2.5, 1.5)], [Coord(3.0, 2.0), Coord(0.5, 1.5), Coord(0.0, 0.0)], [Coord(1.0, 1.0), Coord(1.0, 1.0), Coord(2.5, 1.5)]):
             t = TrackS(tri)
             cells = between(tri[0], tri[1]) | between(tri[1], tri[2])
@@ -636,6 +501,99 @@ def rule_Q(ctx):
                                            dict(case, **{'cells without the feature': sorted(miss)}), 'addFeature')))
     except (IndexError, KeyError, TypeError, AttributeError, ZeroDivisionError) as ex:
         found.append(('fails', ('registration and queries do not fail inside the closed extent', {'exception': '%s: %s' % (type(ex).__name__, ex)}, 'request')))
+    # construction: the grid covers the whole (margin-enlarged) extent of the data and feature n is registered under n
+    class BboxS(orders.PyStub):
+        isa = ('Bbox',)
+
+        def __init__(self, x0, x1, y0, y1):
+            self.v = [x0, x1, y0, y1]
+
+        def copy(self):
+            return BboxS(*self.v)
+
+        def addMargin(self, m=0.05):
+            dx, dy = self.getDimensions()
+            self.v = [self.v[0] - m * dx, self.v[1] + m * dx, self.v[2] - m * dy, self.v[3] + m * dy]
+
+        def getDimensions(self):
+            return (self.v[1] - self.v[0], self.v[3] - self.v[2])
+
+        def getDx(self):
+            return self.v[1] - self.v[0]
+
+        def getDy(self):
+            return self.v[3] - self.v[2]
+
+        def asTuple(self):
+            return tuple(self.v)
+
+        def getXmin(self):
+            return self.v[0]
+
+        def getXmax(self):
+            return self.v[1]
+
+        def getYmin(self):
+            return self.v[2]
+
+        def getYmax(self):
+            return self.v[3]
+
+    class Coll(orders.PyStub):
+        isa = ('TrackCollection',)
+
+        def __init__(self, tracks, bb):
+            self.tracks, self.bb = tracks, bb
+
+        def bbox(self):
+            return self.bb.copy()
+
+        def size(self):
+            return len(self.tracks)
+
+        def __len__(self):
+            return len(self.tracks)
+
+        def __getitem__(self, k):
+            return self.tracks[k]
+
+        def __iter__(self):
+            return iter(self.tracks)
+    try:
+        for (w_, h_), res, margin in (((10.0, 4.0), None, 0.0), ((10.0, 0.39), None, 0.0), ((7.0, 5.0), (2.0, 2.0), 0.0), ((7.0, 5.0), (3.0, 2.0), 0.05), ((4.0, 9.0), None, 0.05)):
+            trs = [TrackS([Coord(0.0, 0.0), Coord(w_, h_)]), TrackS([Coord(w_, 0.0), Coord(w_, h_)]), TrackS([Coord(0.0, h_), Coord(w_ / 2, h_)])]
+            coll = Coll(trs, BboxS(0.0, w_, 0.0, h_))
+            ix = absint.instance(ctx, SI, {}, fn)
+            n['cases'] += 1
+            try:
+                ix.call('__init__', coll, res, margin, False)
+            except orders.Unsupported as ex:
+                raise shape_error('SpatialIndex.__init__ not interpretable: %s' % ex, f0.loc())
+            F = ix.fields
+            case = {'extent of the data': [w_, h_], 'resolution': res, 'margin': margin}
+            ok = all(k in F for k in ('csize', 'lsize', 'dX', 'dY', 'xmin', 'xmax', 'ymin', 'ymax', 'grid'))
+            if not ok:
+                raise shape_error('SpatialIndex.__init__: fields not understood', f0.loc())
+            cover = F['csize'] * F['dX'] >= (F['xmax'] - F['xmin']) * (1 - 1e-12) and F['lsize'] * F['dY'] >= (F['ymax'] - F['ymin']) * (1 - 1e-12)
+            dims = len(F['grid']) == F['csize'] and all(len(col) == F['lsize'] for col in F['grid'])
+            if not (cover and dims) and not any(k == 'cover' for k, _ in found):
+                found.append(('cover', ('the grid allocated covers the whole extent: columns x cell width >= extent width, rows x cell height >= extent height, grid[column][row] is columns x rows',
+                                        dict(case, **{'columns, rows': [F['csize'], F['lsize']], 'cell width, height': [F['dX'], F['dY']],
+                                                      'covered': [F['csize'] * F['dX'], F['lsize'] * F['dY']], 'extent': [F['xmax'] - F['xmin'], F['ymax'] - F['ymin']],
+                                                      'why': 'vertices in the uncovered strip map to a cell index >= the grid size: their segments are skipped at registration'}), '__init__')))
+                continue
+            for num, t in enumerate(trs):
+                for o_ in t.obs:
+                    c = ix.call('__getCell', o_.position)
+                    if c is None:
+                        cell = None
+                    else:
+                        cell = (min(math.floor(c[0]), F['csize'] - 1), min(math.floor(c[1]), F['lsize'] - 1))
+                    if (cell is None or num not in F['grid'][cell[0]][cell[1]]) and not any(k == 'initial' for k, _ in found):
+                        found.append(('initial', ('at construction feature number n of the collection is registered under n in the cells of its vertices (extreme vertices lie on the border of the extent)',
+                                                  dict(case, **{'feature': num, 'vertex': repr(o_.position), 'cell': cell}), '__init__')))
+    except (IndexError, KeyError, TypeError, AttributeError, ZeroDivisionError) as ex:
+        found.append(('fails', ('construction does not fail', {'exception': '%s: %s' % (type(ex).__name__, ex)}, '__init__')))
     for key, (desc, wit, method) in found:
         ctx.violation('C08.Q', _m(ctx, method) if method.startswith('__') else ctx.prog.func(SI + '.' + method), desc, wit, key=key)
     if not found:
@@ -651,9 +609,8 @@ RULES = [
     ('C08.K', rule_K, 'quick'),
     ('C08.M', rule_M, 'quick'),
     ('C08.B', rule_B, 'quick'),
-    ('C08.W', rule_W, 'quick'),
     ('C08.U', rule_U, 'quick'),
     ('C08.I', rule_I, 'quick'),
     ('C08.T', rule_T, 'quick'),
 ]
-MIN_OBLIGATIONS = 20
+MIN_OBLIGATIONS = 14
